@@ -20,7 +20,7 @@ type Item struct {
 	Trace []Event
 	Model Model
 	Big   map[string]*big.Int
-	NoMod bool // model not available (after an unknown answer)
+	NoMod bool                  // model not available (after an unknown answer)
 	Dom   map[string]*bitset256 // exact value sets of byte/bool symbols constrained only by unary conditions
 	Mixed map[string]bool       // symbols that occur in a multi-symbol constraint of the path condition
 }
@@ -62,21 +62,21 @@ type Violation struct {
 }
 
 type Stats struct {
-	Paths        int64 // paths run to an end state
-	Completed    int64 // returned normally from the harness
-	Pruned       int64 // ended by vassume(false)/infeasible
-	Aborted      int64 // left the kernel (unsupported)
-	Budget       int64
-	Events       int64
-	Obligations  int64
-	Discharged   int64
+	Paths             int64 // paths run to an end state
+	Completed         int64 // returned normally from the harness
+	Pruned            int64 // ended by vassume(false)/infeasible
+	Aborted           int64 // left the kernel (unsupported)
+	Budget            int64
+	Events            int64
+	Obligations       int64
+	Discharged        int64
 	DomainDecisions   int64 // branch feasibility decided by the exact byte-domain procedure (no query)
 	DomainCrossChecks int64 // of those, re-decided by the solver for validation
-	ByEval       int64 // obligations that folded to true by symbolic evaluation (no query needed)
-	Unknown      int64
-	Steps        int64
-	Violations   int64
-	PanicsCaught int64
+	ByEval            int64 // obligations that folded to true by symbolic evaluation (no query needed)
+	Unknown           int64
+	Steps             int64
+	Violations        int64
+	PanicsCaught      int64
 }
 
 // Explorer explores all paths of one harness with a pool of workers.
@@ -90,23 +90,23 @@ type Explorer struct {
 	done    bool
 	nwork   int
 
-	stats       Stats
-	violations  []Violation
-	abortMsgs   map[string]int
+	stats        Stats
+	violations   []Violation
+	abortMsgs    map[string]int
 	violPerLabel map[string]int
-	tags        map[string]int64
-	funcs       map[string]bool
-	samples     []string
-	sampleVecs  [][]uint64
-	rng         uint64
-	maxViol     int
-	stepBudget  int
-	budgetIsBug bool
-	deadline    time.Time
-	timedOut    int32
-	solverStats struct {
+	tags         map[string]int64
+	funcs        map[string]bool
+	samples      []string
+	sampleVecs   [][]uint64
+	rng          uint64
+	maxViol      int
+	stepBudget   int
+	budgetIsBug  bool
+	deadline     time.Time
+	timedOut     int32
+	solverStats  struct {
 		queries, sat, unsat, unknown, errors, fallbacks int
-		time                                time.Duration
+		time                                            time.Duration
 	}
 }
 
